@@ -33,6 +33,11 @@ def describe(rep):
              SpreadStepSizesBlockwiseNonMPI.prepare_next_block, SpreadStepSizesBlockwiseNonMPI.get_step_from_which_to_spread,
              AdaptivityBase.compute_optimal_step_size, AdaptivityBase.determine_restart, Adaptivity.get_new_step_size,
              StepSizeLimiter.get_new_step_size, StepSizeSlopeLimiter.get_new_step_size, C.run, C.restart_block, C.it_check)
+    from pySDC.implementations.convergence_controller_classes import adaptivity as ad
+
+    rep.func(ad.AdaptivityRK.get_new_step_size, ad.AdaptivityResidual.get_new_step_size, ad.AdaptivityForConvergedCollocationProblems.determine_restart,
+             ad.AdaptivityForConvergedCollocationProblems.trigger_restart_upon_nonconvergence, ad.AdaptivityPolynomialError.get_new_step_size,
+             ad.AdaptivityExtrapolationWithinQ.get_new_step_size, ad.AdaptivityCollocation.get_new_step_size, ad.AdaptivityCollocation.determine_restart)
     rep.explanation = (
         '(a) one transition of the restart state machine from an ARBITRARY state: real determine_restart / prepare_next_block of '
         'BasicRestartingNonMPI and SpreadStepSizesBlockwiseNonMPI on symbolic restart requests, counters, budget, step sizes, times; per '
@@ -40,12 +45,15 @@ def describe(rep):
         'one step size for all steps and levels, Tend clamp. (b) histories: the real controller run with symbolic restart requests at every '
         '(step, attempt); every feasible history executed; tiling, exact chaining, returned value, retry budget, termination asserted per '
         'path. (c) real compute_optimal_step_size / limiters / Adaptivity on symbolic reals: proposal = beta dt (tol/err)^(1/order) (power '
-        'encoded algebraically), limiter result = specified clip, rejected step is retried with a smaller step unless a lower limit binds.'
+        'encoded algebraically), limiter result = specified clip, rejected step is retried with a smaller step unless a lower limit binds. The same '
+        'for AdaptivityRK, AdaptivityResidual and the classes for converged collocation problems (AdaptivityPolynomialError, '
+        'AdaptivityExtrapolationWithinQ, AdaptivityCollocation): real get_new_step_size + determine_restart on symbolic residual, tolerances, estimates, '
+        'previous residual, reduction factor; a restarted step gets a smaller step, a converged step that is kept has an estimate within the tolerance.'
     )
     rep.rule = 'state = explored path (restart-request pattern / branch pattern of the controllers); transition = branch decision'
     rep.assume('restart requests are injected by a harness convergence controller (control order 90) when iter >= maxiter',
-               'fixed exactly representable dt in (b) so that accepted start times are exact', 'beta <= 1 (beta < 1 for the strict retry-with-smaller-step clause), e_est > 0, e_tol > 0 in (c)')
-    rep.out_of_scope('error estimators themselves (numerical quantities)', 'AdaptivityCollocation, avoid_restarts, StepSizeRounding', 'MPI flavours',
+               'fixed exactly representable dt in (b) so that accepted start times are exact', 'beta <= 1 (beta < 1 for the strict retry-with-smaller-step clause), e_est > 0, e_tol > 0 in (c)', 'factor_if_not_converged > 1, residual_max_tol > restol (sensible configuration)')
+    rep.out_of_scope('error estimators themselves (numerical quantities)', 'avoid_restarts, StepSizeRounding, interpolation between restarts', 'MPI flavours',
                      'NP > 4, more than 6 steps, max_restarts > 3 in (b)')
 
 
@@ -66,6 +74,8 @@ def tasks(tier, seed):
     T.append(('adapt',))
     T.append(('adapt_rk',))
     T.append(('adapt_res',))
+    for which in ('poly', 'extra', 'coll'):
+        T.append(('adapt_conv', which))
     hist = [(1, 2, 3, False, True), (2, 1, 4, False, True), (2, 2, 4, False, True), (2, 2, 4, True, True), (2, 1, 4, False, False),
             (3, 1, 4, False, True), (3, 2, 5, False, True), (3, 2, 4, True, True)] if quick else \
            [(1, 3, 4, False, True), (2, 2, 5, False, True), (2, 3, 5, True, True), (2, 2, 5, False, False), (3, 2, 6, False, True),
@@ -97,6 +107,8 @@ def run_task(rep, task):
         adapt_case(rep, rk=True)
     elif task[0] == 'adapt_res':
         adapt_residual_case(rep)
+    elif task[0] == 'adapt_conv':
+        adapt_conv_case(rep, task[1])
     elif task[0] == 'hist':
         hist_case(rep, *task[1:7], shrink=(task[7] if len(task) > 7 else False))
 
@@ -639,6 +651,106 @@ def adapt_residual_case(rep):
     rep.sample({'case': 'adapt_res', 'free_variables': 'dt, residual, e_tol, e_tol_low, planned step size (or none), maxiter'}, limit=2)
 
 
+class _NS(SimpleNamespace):
+    def get(self, k, d=None):
+        return getattr(self, k, d)
+
+
+def adapt_conv_case(rep, which):
+    """the adaptivity classes for converged collocation problems (polynomial / extrapolation / collocation-switch estimates): real get_new_step_size +
+    determine_restart on symbolic residual, tolerances and estimates.  A step for which a restart is requested gets a smaller step size; a converged
+    step that is not restarted has an estimate within the tolerance."""
+    from pySDC.implementations.convergence_controller_classes import adaptivity as ad
+    from pySDC.implementations.convergence_controller_classes.check_convergence import CheckConvergence
+
+    cls = {'poly': ad.AdaptivityPolynomialError, 'extra': ad.AdaptivityExtrapolationWithinQ, 'coll': ad.AdaptivityCollocation}[which]
+    dt, e_est, e_tol, beta, res_, restol, last, factor, rmax = z3.Reals('dt e_est e_tol beta res restol res_last factor res_max_tol')
+    mx = z3.Int('mx')
+    pre = [dt > 0, e_est > 0, e_tol > 0, beta > 0, beta < 1, res_ >= 0, restol > 0, last >= 0, factor > 1, rmax > restol, mx >= 1, mx <= 3]
+    for order in (1, 2, 3):
+        for it_ in (1, 2):
+            for ram in (True, False):
+                name = f'adapt_conv/{which}/order{order}/it{it_}/restart_at_maxiter{int(ram)}'
+
+                def fn(c):
+                    for a in pre:
+                        c.add(a)
+                    _PowReal.ORDER[0] = order
+                    try:
+                        A_ = _mk(cls, dict(beta=SymReal(beta), e_tol=_PowReal(e_tol), restart_at_maxiter=ram, abort_at_growing_residual=True, residual_max_tol=SymReal(rmax),
+                                           factor_if_not_converged=SymReal(factor), useMPI=False, high_Taylor_order=False, num_colls=2, interpolate_between_restarts=False))
+                        A_.res_last_iter = SymReal(last)
+                        A_.check_convergence = CheckConvergence.check_convergence
+                        if which == 'coll':
+                            conv_coll = bool(SymBool(z3.Bool('all_collocation_problems_done')))
+                            A_.status = SimpleNamespace(order=[order - 1 + 2, order - 1] if conv_coll else [order - 1], error=[(0, 0.0), (1, SymReal(e_est))] if conv_coll else [(0, 0.0)])
+                        L = SimpleNamespace(status=_NS(dt_new=None, residual=SymReal(res_), sweep=1, error_embedded_estimate=SymReal(e_est), error_extrapolation_estimate=SymReal(e_est),
+                                                       order_embedded_estimate=order), params=_NS(dt=SymReal(dt), restol=SymReal(restol)),
+                                            sweep=SimpleNamespace(coll=SimpleNamespace(num_nodes=order)))
+                        St = SimpleNamespace(levels=[L], status=SimpleNamespace(iter=it_, restart=False, slot=0, force_continue=False, force_done=False, time_size=1),
+                                             params=SimpleNamespace(maxiter=SymInt(mx)), time=0.0)
+                        conv = bool(A_.get_convergence(None, St))
+                        A_.get_new_step_size(None, St)
+                        A_.determine_restart(None, St)
+                        return dict(restart=B(St.status.restart), conv=conv, dt_new=(R(L.status.dt_new) if L.status.dt_new is not None else None),
+                                    force_done=B(St.status.force_done))
+                    finally:
+                        _PowReal.ORDER[0] = None
+
+                paths = explore(fn)
+                rep.paths += len(paths)
+                rep.decisions += sum(len(p.decisions) for p in paths)
+                for i, p in enumerate(paths):
+                    r = p.result
+                    A = pre + list(p.assume) + list(p.pc)
+                    goals = {'retry-smaller': z3.Implies(r['restart'], z3.BoolVal(False) if r['dt_new'] is None else r['dt_new'] < dt)}
+                    if r['conv']:
+                        goals['accepted-within-tolerance'] = z3.Implies(z3.Not(r['restart']), e_est <= e_tol)
+                    for cl, g in goals.items():
+                        res, m = prove(g, A, name=f'{name}/path{i}:{cl}')
+                        rep.ob(f'{name}/path{i}:{cl}', res)
+                        if res == 'sat':
+                            rep.replayed += 1
+                            vals = {str(v): float(model_value(m, v)) for v in (dt, e_est, e_tol, beta, res_, restol, last, factor, rmax)}
+                            vals['mx'] = int(model_value(m, mx))
+                            bad = adapt_conv_concrete(which, order, it_, ram, vals, p.decisions)
+                            if cl in bad:
+                                rep.violation(f'{PID}/{cls.__name__}/{cl}', f'{name}/path{i}: {cl} refuted on the real class for {vals}: {bad[cl]}',
+                                              {'task': ['adapt_conv', which], 'order': order, 'iter': it_, 'restart_at_maxiter': ram, 'vals': vals, 'decisions': p.decisions})
+                            else:
+                                rep.unreproduced(f'{name}/path{i}:{cl}', vals)
+                rep.ob(f'{name}:coverage', coverage_certificate(paths, pre + [a for p in paths[:1] for a in p.assume if 'pow' not in str(a)], name=f'{name}:coverage'))
+    rep.sample({'case': f'adapt_conv/{which}', 'free_variables': 'dt, estimate, e_tol, beta, residual, restol, previous residual, reduction factor, residual_max_tol, maxiter'}, limit=3)
+
+
+def adapt_conv_concrete(which, order, it_, ram, vals, decisions=()):
+    """the same scenario on the real class with plain floats"""
+    from pySDC.implementations.convergence_controller_classes import adaptivity as ad
+    from pySDC.implementations.convergence_controller_classes.check_convergence import CheckConvergence
+
+    cls = {'poly': ad.AdaptivityPolynomialError, 'extra': ad.AdaptivityExtrapolationWithinQ, 'coll': ad.AdaptivityCollocation}[which]
+    A_ = _mk(cls, dict(beta=vals['beta'], e_tol=vals['e_tol'], restart_at_maxiter=ram, abort_at_growing_residual=True, residual_max_tol=vals['res_max_tol'],
+                       factor_if_not_converged=vals['factor'], useMPI=False, high_Taylor_order=False, num_colls=2, interpolate_between_restarts=False))
+    A_.res_last_iter = vals['res_last']
+    A_.check_convergence = CheckConvergence.check_convergence
+    if which == 'coll':
+        conv_coll = bool(decisions[0]) if decisions else True
+        A_.status = SimpleNamespace(order=[order - 1 + 2, order - 1] if conv_coll else [order - 1], error=[(0, 0.0), (1, vals['e_est'])] if conv_coll else [(0, 0.0)])
+    L = SimpleNamespace(status=_NS(dt_new=None, residual=vals['res'], sweep=1, error_embedded_estimate=vals['e_est'], error_extrapolation_estimate=vals['e_est'],
+                                   order_embedded_estimate=order), params=_NS(dt=vals['dt'], restol=vals['restol']), sweep=SimpleNamespace(coll=SimpleNamespace(num_nodes=order)))
+    St = SimpleNamespace(levels=[L], status=SimpleNamespace(iter=it_, restart=False, slot=0, force_continue=False, force_done=False, time_size=1),
+                         params=SimpleNamespace(maxiter=vals['mx']), time=0.0)
+    conv = bool(A_.get_convergence(None, St))
+    A_.get_new_step_size(None, St)
+    A_.determine_restart(None, St)
+    bad = {}
+    if St.status.restart and not (L.status.dt_new is not None and L.status.dt_new < vals['dt']):
+        bad['retry-smaller'] = f'restart requested, new step size {L.status.dt_new} (dt = {vals["dt"]})'
+    if conv and not St.status.restart and not vals['e_est'] <= vals['e_tol']:
+        bad['accepted-within-tolerance'] = f'converged step accepted with estimate {vals["e_est"]} > e_tol {vals["e_tol"]}'
+    return bad
+
+
 # ------------------------------------------------------------------------------------------------ (b) histories
 
 H = {'att': {}, 'log': [], 'maxr': 0, 'shrink': False}
@@ -825,6 +937,21 @@ def replay(path):
         obs, prop_f, fits = spread_concrete(t[1], t[2], d['vals'], d['flags'], t[3] if len(t) > 3 else False)
         print('observed', obs, 'proposal', prop_f, 'fits', fits)
         bad = len({round(a, 12) for a in obs}) != 1 or obs[0] > prop_f * (1 + 1e-12) or (fits and abs(obs[0] - prop_f) > 1e-9 * (1 + prop_f))
+    elif t[0] == 'adapt_conv':
+        bad = adapt_conv_concrete(t[1], d['order'], d['iter'], d['restart_at_maxiter'], d['vals'], d.get('decisions', ()))
+        print('violated on the real class:', bad)
+    elif t[0] == 'adapt_res':
+        from pySDC.implementations.convergence_controller_classes.adaptivity import AdaptivityResidual
+
+        v = d['vals']
+        A2 = _mk(AdaptivityResidual, dict(e_tol=v['e_tol'], e_tol_low=v['e_tol_low'], use_restol=False, allowed_modifications=['increase', 'decrease'], avoid_restarts=False))
+        L2 = SimpleNamespace(status=SimpleNamespace(dt_new=(v['planned'] if d.get('planned_set') else None), residual=v['res']), params=SimpleNamespace(dt=v['dt'], restol=-1.0))
+        S2 = SimpleNamespace(levels=[L2], status=SimpleNamespace(iter=d.get('iter', 1), restart=False, slot=0, force_continue=False), params=SimpleNamespace(maxiter=d['maxiter']), time=0.0)
+        A2.get_new_step_size(None, S2)
+        A2.determine_restart(None, S2)
+        new = L2.status.dt_new if L2.status.dt_new is not None else v['dt']
+        print('restart', S2.status.restart, 'dt', v['dt'], 'new step size', new)
+        bad = bool(S2.status.restart) and not new < v['dt']
     else:
         print(d)
         bad = True
